@@ -2,7 +2,7 @@
 from . import gen, hist
 from .hbase import HistCheck, answer_of
 from .refs import RefError, prelude_from_decls, prelude_from_trace_decls, query_text
-from .runner import bump, stable_hash
+from .runner import bump, stable_hash, sub_rng
 
 
 def decls_by_ctx(resp):
@@ -72,6 +72,53 @@ class C11(HistCheck):
     def pick_profile(self, rng):
         pool = [p for p in gen.ALL_PROFILES if p != 'PROP']
         return rng.choice(pool)
+
+    # one case in four drives the theory handler directly (engine T): assert / backtrack interleavings that no SAT
+    # search produces, with the same theory-clause trace and the same oracle
+    def gen_case(self, seed, idx, tier):
+        if sub_rng(seed, self.pid, idx, 'engine').random() < 0.25:
+            from .checks_theory import C22
+            c = C22().gen_case(seed, idx, tier)
+            c['pid'] = self.pid
+            c['engine'] = 'T'
+            return c
+        return HistCheck.gen_case(self, seed, idx, tier)
+
+    def run_case(self, ctx, case):
+        if case.get('engine') != 'T':
+            return HistCheck.run_case(self, ctx, case)
+        from .checks_theory import C22
+        from .runner import death_of, empty_result, log_hash, sim_ticks
+        res = empty_result()
+        plan = C22().build_plan(case)
+        plan['monitors'] = {'tclauses': True, 'farkas': False, 'max_tclauses': 400}
+        resp = ctx.osim('sim').run(plan)
+        res['hash'] = log_hash(resp)
+        bump(res, 'runs')
+        bump(res, 'engine-T-runs')
+        bump(res, 'sim-ticks', sim_ticks(resp))
+        d = death_of(resp)
+        if d and d[0] == 'harness':
+            raise RuntimeError('harness: %r' % (d[1],))
+        if d:
+            res['discarded'] = 'died:' + d[0]
+            return res
+        try:
+            self.oracle(ctx, {'hist': {'logic': case['logic']}}, {'resp': resp}, res)
+        except RefError:
+            bump(res, 'oracle-error')
+        return res
+
+    def shrink_steps(self, case):
+        if case.get('engine') == 'T':
+            from .checks_theory import C22
+            return C22().shrink_steps(case)
+        return HistCheck.shrink_steps(self, case)
+
+    def sample_of(self, case):
+        if case.get('engine') == 'T':
+            return {'engine': 'T', 'logic': case['logic'], 'asserts': case['asserts'][:3], 'ops': case['ops'][:20]}
+        return case
 
     def oracle(self, ctx, case, info, res):
         resp = info['resp']
